@@ -85,8 +85,8 @@ type view struct {
 	httpsAlways map[string]bool
 }
 
-func newView(c *cluster, defaultSecret string) *view {
-	v := &view{c: c, defContent: fakeDefault, defSecret: defaultSecret, ruleHosts: map[string]bool{}, httpsAlways: map[string]bool{}}
+func newView(c *cluster, defaultSecret string, crossNS bool) *view {
+	v := &view{c: c, crossNS: crossNS, defContent: fakeDefault, defSecret: defaultSecret, ruleHosts: map[string]bool{}, httpsAlways: map[string]bool{}}
 	v.ingsSorted = c.ofKind("Ingress")
 	sort.SliceStable(v.ingsSorted, func(i, j int) bool {
 		a, b := v.ingsSorted[i], v.ingsSorted[j]
